@@ -4,10 +4,10 @@ CONSTANTS
   Lens = {1, 2}
   GenesisLen = 1
   Period = 1
-  Starts = {0, 1, 2}
+  Starts = {0, 2}
   Timeouts = {3}
   MinActs = {0, 4}
-  Thresholds <- ThrAll
+  Thresholds <- Thr12
   Coded = FALSE
   Queries = TRUE
   Emit = FALSE
